@@ -338,6 +338,12 @@ class Interp:
                 return fn(self, f, *args, **kwargs)
         if callable(f) and getattr(f, "_pyvc_model", False):
             return f(self, *args, **kwargs)
+        if isinstance(f, LambdaVal) and not kwargs and len(args) == len(f.node.args.args) and not f.node.args.vararg and not f.node.args.kwonlyargs:
+            fr = Frame(f.frame.func, dict(f.frame.locals))
+            fr.module = f.frame.module
+            for a, v in zip(f.node.args.args, args):
+                fr.locals[a.arg] = v
+            return self.eval(f.node.body, fr)
         if isinstance(f, ExcClass):
             return ExcValue(f.name, args[0] if args and isinstance(args[0], str) else "")      # ValueError(anything): an exception instance
         raise Unsupported("call of %r" % (f,))
